@@ -28,17 +28,22 @@ tvars == <<l, bads, nbad, ctx>>
 
 Trace == ndJsonDeserialize(IOEnv.TRACE_FILE)
 
-MaxBads == 200
+MaxBads == 1000
 
 TraceBaseInit == l = 1 /\ bads = <<>> /\ nbad = 0 /\ ctx = [k |-> "none"]
 
 \* demands: a sequence of <<code, condition>>
 FailedOf(ds) == SelectSeq(ds, LAMBDA p : ~p[2])
 
-Note(ds) == LET f == FailedOf(ds) IN
+\* at most PerCode entries are kept per demand code (and MaxBads in total), so that a demand
+\* failing thousands of times cannot hide a different failing demand
+PerCode == 25
+Listed(code) == Cardinality({i \in 1..Len(bads) : bads[i][2] = code})
+Note(ds) == LET f == FailedOf(ds)
+                keep == SelectSeq(f, LAMBDA p : Listed(p[1]) < PerCode) IN
             /\ nbad' = nbad + Len(f)
             /\ bads' = IF Len(bads) >= MaxBads THEN bads
-                       ELSE bads \o [i \in 1..Len(f) |-> <<l, f[i][1]>>]
+                       ELSE bads \o [i \in 1..Len(keep) |-> <<l, keep[i][1]>>]
 
 Has(e, f) == f \in DOMAIN e
 
